@@ -222,6 +222,11 @@ def restore(ctx):
             none_t = m.get(0, other)
             if any(n in cl.reachable(none_t, no_nodes=(c.bb,)) for n in nr):
                 none_ok = True
+    if not none_ok and c.self_ty.startswith("core::option::Option<") and refused_when_diff:
+        # `state.as_deref() != Some("completed")`: the comparison is on the Option itself, so an absent marker (None) is
+        # one of the "differs" outcomes that were just shown to be refused
+        somes = [o for i_ in (0, 1) for o in cm.operand_origins(cl, c, i_) if o.kind == "const" and o.const and "completed" in str(o.const.get("s", ""))] or "completed" in cm.call_strings(cl, c, F)
+        none_ok = bool(somes)
     R.require(none_ok, "absent-refused", c.where(), "a missing marker is refused (None arm reaches NotRunning)", fail_msg="a subscription database without a state marker is not refused")
     # later reads (the sql) happen only when equal
     sqlq = [s for s in sqlinv.inventory(F, [cl]) if "'sql'" in s.sql]
